@@ -28,22 +28,25 @@ THEOREMS = ["C20_status0", "C20_never_panics", "C20_status0_refuted", "C20_exit_
             "C20_orphans_ignored", "C20_no_escape", "C20_failed_pass_records_nothing", "C20_lexical_escape", "C20_dotdot_to_root",
             "C20_decoder_total", "C20_decoder_ok_shape", "C20_decoder_rejects",
             "C20_complete_file_based", "C20_complete_primary", "C20_complete_external",
-            "C20_nested_complete_refuted", "C20_scope_collapse_refuted",
-            "C20_ex_workspace", "C20_ex_dotdot", "C20_ex_complete_hyps", "C20_ex_decoder"]
+            "C20_nested_complete_refuted", "C20_listed_request_never_scans_all", "C20_foreign_request_records_nothing",
+            "C20_ex_workspace", "C20_ex_dotdot", "C20_ex_gone_cwd", "C20_ex_dotdot_reentry", "C20_ex_complete_hyps",
+            "C20_ex_decoder"]
 CLAIM = {
     "text": "Partial proof. Over an executable Gallina model of handle_checkpoint (exit statuses and preset table read from the "
             "source by the translator), of the serde-derived agent-v1 decoder (shapes read from the source) and of the routing "
             "(path_is_in_workdir, find_repository_for_file, group_files_by_repository, the pathspec filter of checkpoint::run): "
-            "status 0 and no panic for ALL payload values, presets and layouts under two exact side conditions "
-            "(C20_status0, C20_never_panics; the unconditional statement is refuted: C20_status0_refuted, classes K3/K4); every "
-            "recorded file lies in its innermost repository, orphans are recorded nowhere, nothing recorded escapes the work "
-            "dir (C20_routing, C20_orphans_ignored, C20_no_escape, C20_lexical_escape, C20_dotdot_to_root); the decoder is total "
+            "status 0 and no panic for ALL payload values, presets and layouts, the process cwd may even be gone, for every "
+            "UTF-8 command line (C20_status0, C20_never_panics; the unconditional statement is refuted: C20_status0_refuted, "
+            "class K4); every recorded file lies in its innermost repository, orphans are recorded nowhere, nothing recorded "
+            "escapes the work dir (C20_routing, C20_orphans_ignored, C20_no_escape, C20_lexical_escape, C20_dotdot_to_root); a "
+            "request that names files never becomes a whole-tree scan (C20_listed_request_never_scans_all); the decoder is total "
             "and rejects wrong shapes (C20_decoder_*); completeness holds in three stated classes (C20_complete_*) and is refuted "
-            "outside them (C20_nested_complete_refuted K1, C20_scope_collapse_refuted K2). Tied to the binary by decoder "
+            "outside them (C20_nested_complete_refuted K1). Tied to the binary by decoder "
             "correspondence on generated JSON values, routing correspondence on generated layouts, and an oracle over every preset.",
     "design_ref": "DESIGN.md §4 C20",
     "note": "serde_json's text parser, git, the third-party transcript readers and the file system are environment: exercised by "
-            "the payload matrix (oracle), not proved. Known classes K1-K5 are reproduced on the real binary at every run.",
+            "the payload matrix (oracle), not proved. Open classes K1, K4, K6 are reproduced on the real binary at every run; the "
+            "repaired classes K2, K3, K5, K7 are regression witnesses that must pass.",
     "technique": "Coq proof over extracted model + translator-regenerated tables + system-level differential runs + oracle",
 }
 TRUSTED_BASE = [
@@ -56,7 +59,8 @@ TRUSTED_BASE = [
 ASSUMPTIONS = [
     "repositories are allowed by the configuration (default config)",
     "repo_working_dir / cwd are not inside a .git directory",
-    "routing correspondence: a preset that takes over repo_working_dir receives an absolute one; listed paths have at most 64 components",
+    "routing correspondence: a preset that takes over repo_working_dir receives an absolute one; listed paths have at most 64 "
+    "components; a listed relative path is not a bare `.` (the work dir itself)",
     "routing correspondence compares files that exist and were modified (git status reports only changes)",
 ]
 
@@ -218,6 +222,8 @@ class World:
         ws = self.ws
         ra, rb = os.path.join(ws, "ra"), os.path.join(ws, "rb")
         self._mk("rb", rb, {"b0.txt": "b0\n", "b1.txt": "b1\n", "sub/b2.txt": "b2\n"})
+        # a sibling whose directory name merely extends the name of `ra` (component-wise it is NOT inside ra)
+        self._mk("rad", os.path.join(ws, "ra-docs"), {"d0.txt": "d0\n", "sub/d1.txt": "d1\n"})
         self._mk("ra", ra, {"a0.txt": "a0\n", "a1.txt": "a1\n", "sub/a2.txt": "a2\n", "dironly/keep.txt": "k\n",
                             "sp ace/a 3.txt": "a3\n", "uni/é.txt": "u\n"})
         if "inner" in self.features:
@@ -794,10 +800,11 @@ def stat_entry(raw):
 
 
 def model_route_input(W, preset_sym, cwd, hook_sx, rwd, files, failing=()):
+    """cwd None = the process working directory no longer exists"""
     lay = "(" + " ".join(f"({sx_path(comps(rp['root']))} {rp['kind']})" for rp in W.repos.values()) + ")"
     cwd_raw = comps(cwd) if cwd else []
-    bases = [cwd_raw]
-    if rwd is not None:
+    bases = [cwd_raw] if cwd else []
+    if rwd is not None and (cwd or rwd.startswith("/")):
         bases.append(absolutize(cwd_raw, rwd))
     for rp in W.repos.values():
         bases.append(comps(rp["workdir"]))
@@ -830,12 +837,12 @@ def parse_route_output(W, out):
     return d["status"][0], d["panic"][0], d["scope-all"][0], recs
 
 
-LOCS = ["ws", "ra", "ra/sub", "inner", "rb", "plain", "outside", "wt", "bare", "sm", "gone"]
+LOCS = ["ws", "ra", "ra/sub", "inner", "rb", "rad", "plain", "outside", "wt", "bare", "sm", "gone"]
 
 
 def loc_path(W, name):
     ws = W.ws
-    return {"ws": ws, "ra": ws + "/ra", "ra/sub": ws + "/ra/sub", "inner": ws + "/ra/inner", "rb": ws + "/rb",
+    return {"ws": ws, "ra": ws + "/ra", "ra/sub": ws + "/ra/sub", "inner": ws + "/ra/inner", "rb": ws + "/rb", "rad": ws + "/ra-docs",
             "plain": ws + "/plain", "outside": W.root + "/outside", "wt": ws + "/wt", "bare": ws + "/bare.git",
             "sm": ws + "/ra/sm", "gone": ws + "/nonexistent/dir"}[name]
 
@@ -844,7 +851,8 @@ def targets(W):
     """editable regular files: (spelled absolute path, via_symlink)"""
     ws = W.ws
     t = [(ws + "/ra/a0.txt", False), (ws + "/ra/sub/a2.txt", False), (ws + "/ra/sp ace/a 3.txt", False), (ws + "/ra/uni/é.txt", False),
-         (ws + "/rb/b0.txt", False), (ws + "/rb/sub/b2.txt", False), (ws + "/plain/p0.txt", False), (W.root + "/outside/o0.txt", False)]
+         (ws + "/rb/b0.txt", False), (ws + "/rb/sub/b2.txt", False), (ws + "/ra-docs/d0.txt", False),
+         (ws + "/ra-docs/sub/d1.txt", False), (ws + "/plain/p0.txt", False), (W.root + "/outside/o0.txt", False)]
     if "inner" in W.repos:
         t += [(ws + "/ra/inner/i0.txt", False), (ws + "/ra/inner/deep/i1.txt", False)]
     if "sm" in W.repos:
@@ -858,57 +866,7 @@ def targets(W):
     return t
 
 
-def walks_out(cs):
-    d = 0
-    for c in cs:
-        if c == "..":
-            d -= 1
-            if d < 0:
-                return True
-        else:
-            d += 1
-    return False
-
-
-def k7_failing(W, P, base_dir, files):
-    """C20-K7: repositories whose `git status` command line is refused because of ONE listed path that passes the
-    work-dir filter: a spelling that leaves the work-tree root through `..` before re-entering (`../ra/x`,
-    `<root>/../ra/x`), the empty string (or the work dir itself given absolutely), or a NUL byte.  Every file of that
-    pass is lost."""
-    out = set()
-    for s in files or []:
-        for n, rp in W.repos.items():
-            if rp["kind"] == "bare":
-                continue
-            wd = rp["workdir"]
-            join_base = wd if n == P else (W.repos[P]["workdir"] if P else base_dir)
-            a = s if s.startswith("/") else os.path.join(join_base, s)
-            try:
-                res = os.path.realpath(a) if os.path.exists(a) else os.path.normpath(a)
-            except (OSError, ValueError):
-                res = os.path.normpath(a)
-            if not (res == wd or res.startswith(wd + os.sep)):
-                continue
-            if n != P:
-                # only paths routed to n reach its pass: external to P, and n is the repository the upward walk finds
-                pw = W.repos[P]["workdir"] if P else None
-                if pw and (res == pw or res.startswith(pw + os.sep)):
-                    continue
-                if W.innermost(res, skip_submodules=True) != n:       # find_repository_for_file walks past submodules
-                    continue
-            if "\0" in s:
-                out.add(n)
-            elif n == P and not s.startswith("/"):
-                if s == "" or walks_out(pieces(s)):
-                    out.add(n)
-            else:
-                ca, cw = pieces(a), pieces(wd)
-                if ca[:len(cw)] == cw and (len(ca) == len(cw) or walks_out(ca[len(cw):])):
-                    out.add(n)
-    return out
-
-
-def known_drop(W, P, base_real, target_real, want):
+def known_drop(W, P, base_real, target_real, want, no_boundary=False):
     """C20-K1 (independent of the model): the classes in which a listed file of repository `want` is recorded nowhere"""
     if P is not None:
         wd = W.repos[P]["workdir"]
@@ -916,7 +874,7 @@ def known_drop(W, P, base_real, target_real, want):
             return want != P or W.repos[P]["kind"] == "bare"
         return W.repos[want]["kind"] == "submodule"
     root = W.repos[want]["root"]
-    inside = base_real is not None and (root == base_real or root.startswith(base_real + os.sep))
+    inside = no_boundary or (base_real is not None and (root == base_real or root.startswith(base_real + os.sep)))
     return W.repos[want]["kind"] == "submodule" or not inside
 
 
@@ -926,9 +884,9 @@ def layout_case(args):
     feats = ["inner"] + [f for f in ("sm", "wt", "bare", "bare_in", "symlinks") if r.chance(1, 2)]
     W = World(base, f"lay{idx}", features=feats)
     try:
-        locs = [l for l in LOCS if l in ("ws", "ra", "ra/sub", "inner", "rb", "plain", "outside", "gone") or l in W.repos]
+        locs = [l for l in LOCS if l in ("ws", "ra", "ra/sub", "inner", "rb", "rad", "plain", "outside", "gone") or l in W.repos]
         deleted_cwd = r.chance(1, 25)
-        cwd_name = r.weighted([(25, "ra"), (20, "ws"), (10, "rb"), (8, "inner"), (8, "ra/sub"), (8, "plain"), (5, "outside")]
+        cwd_name = r.weighted([(25, "ra"), (20, "ws"), (10, "rb"), (8, "inner"), (8, "ra/sub"), (8, "plain"), (5, "outside"), (5, "rad")]
                               + [(6, l) for l in ("wt", "bare", "sm") if l in W.repos])
         cwd = loc_path(W, cwd_name)
         preset = r.weighted([(75, "agent-v1"), (13, "claude"), (12, "ai_tab")])
@@ -941,11 +899,14 @@ def layout_case(args):
                 rwd = os.path.relpath(rwd, cwd)              # a relative repo_working_dir
             if preset == "ai_tab" and r.chance(1, 4):
                 rwd_name, rwd = None, None
-        eff = cwd if rwd is None else (rwd if os.path.isabs(rwd) else os.path.join(cwd, rwd))
-        eff_real = os.path.realpath(eff) if os.path.isdir(eff) else None
+        if deleted_cwd:          # the process sits in a removed directory: only an absolute repo_working_dir resolves
+            eff = rwd if (rwd is not None and os.path.isabs(rwd)) else None
+        else:
+            eff = cwd if rwd is None else (rwd if os.path.isabs(rwd) else os.path.join(cwd, rwd))
+        eff_real = os.path.realpath(eff) if (eff and os.path.isdir(eff)) else None
         P = W.discover(eff_real) if eff_real else None
         # relative spellings are unambiguous only when cwd, repo_working_dir and the work dir of P coincide
-        unamb = P is not None and eff_real == cwd == W.repos[P]["workdir"]
+        unamb = (not deleted_cwd) and P is not None and eff_real == cwd == W.repos[P]["workdir"]
         ts = targets(W)
         listed, edited = [], []       # listed: (spelling, target real or None, check_complete)
         nfiles = 1 if preset == "claude" else r.weighted([(35, 1), (35, 2), (20, 3), (10, 4)])
@@ -1006,6 +967,15 @@ def layout_case(args):
             if ai:
                 v = O(type="ai_agent", repo_working_dir=rwd, edited_filepaths=files, transcript=O(messages=[O(type="user", text="go")]),
                       agent_name="toolx", model="m1", conversation_id=f"c{idx}")
+                if r.chance(1, 4):       # the editor ships the buffer contents, keyed by the paths as listed
+                    df = []
+                    for sp, real, _ in listed:
+                        if real is not None:
+                            try:
+                                df.append((sp, open(real).read()))
+                            except OSError:
+                                pass
+                    v.pairs.append(("dirty_files", Obj(df)))
             else:
                 v = O(type="human", repo_working_dir=rwd, will_edit_filepaths=files)
             psym = "v1"
@@ -1038,15 +1008,13 @@ def layout_case(args):
                 "edited": edited, "bystanders": bystanders, "rc": rc, "stderr": err_tail(err, 500), "new_entries": new[:8]}
         # ---- oracle
         bad = basic_oracle(rc, err)
-        if bad and deleted_cwd:
-            res["known"].append("C20-K3")
-            bad = []
         bad += probs + safety_check(W, new)
         impl = {(rp, W.entry_real(rp, f)) for rp, _, f in new}
-        base_dir = eff if (preset != "agent-v1" and rwd is not None) else cwd       # the workspace boundary in file-based mode
-        base_real = os.path.realpath(base_dir) if os.path.isdir(base_dir) else None
-        failing = k7_failing(W, P, base_dir, files)
-        if not deleted_cwd and files is not None:
+        # the workspace boundary in file-based mode (none at all when the process cwd is gone and nothing replaced it)
+        base_dir = eff if (preset != "agent-v1" and rwd is not None) else (None if deleted_cwd else cwd)
+        base_real = os.path.realpath(base_dir) if (base_dir and os.path.isdir(base_dir)) else None
+        no_boundary = base_dir is None
+        if files is not None:
             for s, real, chk in listed:
                 if not chk or real is None:
                     continue
@@ -1054,9 +1022,7 @@ def layout_case(args):
                 if want is None:
                     continue
                 if (want, real) not in impl:
-                    if want in failing:
-                        res["known"].append("C20-K7")
-                    elif known_drop(W, P, base_real, real, want):
+                    if known_drop(W, P, base_real, real, want, no_boundary):
                         res["known"].append("C20-K1")
                     else:
                         bad.append(f"listed file {s!r} ({real}) belongs to repository {want} but was recorded nowhere")
@@ -1068,37 +1034,29 @@ def layout_case(args):
 
                 def interp(s):
                     return s if os.path.isabs(s) else os.path.join(jb, s)
-
-                def ok_path(s):
-                    if "\0" in s:
-                        return False
-                    a = interp(s)
-                    if not os.path.exists(a):
-                        return False
-                    real = os.path.realpath(a)
-                    if P is not None:
-                        wd = W.repos[P]["workdir"]
-                        return real == wd or real.startswith(wd + os.sep)
-                    return real == os.path.normpath(a)
-                # C20-K2 (decidable on the input): some listed path does not name an existing location inside the work
-                # tree of the repository of repo_working_dir (file-based mode: does not exist, or goes through a symlink)
-                k2 = not all(ok_path(s) for s in files)
-                # a relative repo_working_dir taken over by the preset: listed paths are re-interpreted against the work dir
-                k2 = k2 or (P is None and rwd is not None and not os.path.isabs(rwd) and preset != "agent-v1")
                 # a listed directory lists everything below it
-                dirs = [os.path.realpath(interp(s)) for s in files if "\0" not in s and os.path.isdir(interp(s))]
+                dirs = [os.path.realpath(interp(s)) for s in files
+                        if "\0" not in s and (os.path.isabs(s) or not (deleted_cwd and P is None)) and os.path.isdir(interp(s))]
                 over = [(rp, q) for rp, q in over if not any(q == d or q.startswith(d.rstrip(os.sep) + os.sep) for d in dirs)]
-                if over and k2:
-                    res["known"].append("C20-K2")
-                elif over:
+                if over:
                     bad.append(f"unlisted (human) files recorded by this checkpoint: {over[:3]}")
         if bad:
             res["viol"].append(dict(desc, problems=bad[:4]))
         # ---- correspondence with the model's routing
         hook_sx = "(json " + jsx(v) + ")"
-        res["model_in"] = model_route_input(W, psym, None if deleted_cwd else cwd, hook_sx, rwd, files, failing)
+        res["model_in"] = model_route_input(W, psym, None if deleted_cwd else cwd, hook_sx, rwd, files)
         res["files_given"] = bool(files)
-        res["tie_skip"] = (rwd is not None and not os.path.isabs(rwd) and preset != "agent-v1") or any(len(pieces(f)) > 64 for f in files or [])
+        ldirs = []
+        for f in files or []:
+            if "\0" in f:
+                continue
+            for b in ([W.repos[P]["workdir"]] if P else []) + ([base_real] if base_real else []) + ([] if deleted_cwd else [cwd]):
+                a = f if os.path.isabs(f) else os.path.join(b, f)
+                if os.path.isdir(a):
+                    ldirs.append(os.path.realpath(a))
+        res["listed_dirs"] = sorted(set(ldirs))          # a listed directory lists everything below it
+        res["tie_skip"] = ((rwd is not None and not os.path.isabs(rwd) and preset != "agent-v1")
+                           or any(len(pieces(f)) > 64 or (f and not f.startswith("/") and not pieces(f)) for f in files or []))
         res["impl"] = sorted(impl)
         res["edited"] = edited
         res["rc"] = rc
@@ -1192,6 +1150,17 @@ def witness(args):
             rc, err = W.run("agent-v1", _ai_payload(ra, None), cwd=ra)
             logs, _ = W.read_logs()
             return any("lnk" in fs for k, fs in logs["ra"])
+        if which == "G1":
+            rad = W.repos["rad"]["root"]
+            f = rad + "/d0.txt"
+            _w(f, "ai\n", "a")
+            v = O(type="ai_agent", repo_working_dir=ra, edited_filepaths=[f], transcript=O(messages=[]), agent_name="toolx",
+                  model="m1", conversation_id="g1", dirty_files=Obj([(f, open(f).read())]))
+            rc, err = W.run("agent-v1", jtext(v), cwd=ra)
+            logs, _ = W.read_logs()
+            in_own = any("d0.txt" in fs for k, fs in logs["rad"])
+            in_ra = any(fs for k, fs in logs["ra"])
+            return not (rc == 0 and in_own and not in_ra)
         if which == "K7":
             _w(ra + "/a0.txt", "ai\n", "a")
             _w(ra + "/sub/a2.txt", "ai\n", "a")
@@ -1207,17 +1176,18 @@ KNOWN = {
     "K1": "C20-K1 a listed file of a repository is recorded nowhere: it lies inside the work dir of the repository discovered from "
           "repo_working_dir but belongs to a nested repository / submodule / work tree below it (or that repository is bare), or it "
           "belongs to a submodule, or (workspace mode) its repository is outside the workspace boundary",
-    "K2": "C20-K2 some listed path does not name an existing location inside the work tree of the repository of repo_working_dir: a "
-          "pass whose pathspec filter becomes empty scans the whole work tree and records files nobody listed (a person's edits as AI)",
-    "K3": "C20-K3 the process working directory no longer exists: std::env::current_dir().unwrap() panics, exit status 101",
     "K4": "C20-K4 the hook payload is passed on the command line and is not valid UTF-8: clap refuses the arguments, exit status 2",
-    "K5": "C20-K5 github-copilot chat session file with timestamp + totalElapsed overflowing i64: arithmetic overflow panic "
-          "(builds with overflow checks), exit status 101",
     "K6": "C20-K6 an untracked / modified symbolic link inside the work tree pointing to a file of another repository is read "
           "through by a whole-tree checkpoint: the other repository's content is attributed under the link's name",
-    "K7": "C20-K7 one listed path that passes the work-dir filter but that git refuses — a spelling leaving the work-tree root "
-          "through `..` before re-entering (`../ra/x`, `<root>/../ra/x`), the empty string, or a NUL byte: `git status` fails and "
-          "every file of that pass is lost",
+}
+# repaired in /repo: the witnesses are regression tests that must pass
+FIXED = {
+    "K2": "fixed C20-K2 (a request naming only foreign / unusable paths scanned the whole work tree and recorded unlisted files)",
+    "K3": "fixed C20-K3 (checkpoint panicked when the process working directory no longer exists)",
+    "K5": "fixed C20-K5 (copilot session timestamp + totalElapsed overflow panic)",
+    "K7": "fixed C20-K7 (one listed path git refuses made git status fail and lost every file of that pass)",
+    "G1": "guard: a file of a sibling repository whose directory name extends this repository's name (ra / ra-docs) is recorded "
+          "in its own repository only (work-dir membership is component-wise, not a string prefix)",
 }
 
 
@@ -1357,7 +1327,7 @@ def run(ctx):
             for rec in xs.get("records", []):
                 (root, kind), q = rec
                 mrec.add(("/" + "/".join(C.uncps(c) for c in root), "/" + "/".join(C.uncps(c) for c in q)))
-            roots = {"ra": "/ws/ra", "inner": "/ws/ra/inner", "rb": "/ws/rb", "sm": "/ws/ra/sm", "wt": "/ws/wt",
+            roots = {"ra": "/ws/ra", "rad": "/ws/ra-docs", "inner": "/ws/ra/inner", "rb": "/ws/rb", "sm": "/ws/ra/sm", "wt": "/ws/wt",
                      "bare": "/ws/bare.git", "bare_in": "/ws/ra/b2.git"}
             impl = {(rp, q) for rp, q in x["impl"] if q in ed}
             m2 = set()
@@ -1365,6 +1335,8 @@ def run(ctx):
                 if q in ed:
                     nm = [n for n, sfx in roots.items() if root.endswith(sfx)]
                     m2.add((nm[0] if nm else root, q))
+            impl = {(rp, q) for rp, q in impl
+                    if (rp, q) in m2 or not any(q == d or q.startswith(d.rstrip("/") + "/") for d in x["listed_dirs"])}
             okrec = (m2 == impl) if (x["files_given"] and not sa) else (m2 <= impl or not x["files_given"])
             if not okrec or st != x["rc"] or bool(pn) != x["panic"]:
                 lay_mis.append(f"case {x['idx']} ({key}): model records {sorted(m2)} status {st} panic {pn}; "
@@ -1372,15 +1344,19 @@ def run(ctx):
     obligations.append(("tie:correspondence routing (records, status, panic) Model/Ingest.v vs binary on generated layouts",
                         ctx.model_ok and not lay_mis, "; ".join(lay_mis[:2]) if lay_mis else ("" if ctx.model_ok else "model did not build")))
 
-    # ---- D. known-class witnesses
-    wres = C.parallel_map(witness, [(base, k) for k in sorted(KNOWN)])
-    for k, w in zip(sorted(KNOWN), wres):
+    # ---- D. witnesses: open classes must still fail (else the entry is stale), repaired ones must pass
+    wkeys = sorted(KNOWN) + sorted(FIXED)
+    wres = C.parallel_map(witness, [(base, k) for k in wkeys])
+    for k, w in zip(wkeys, wres):
         if isinstance(w, dict):
             violations.append((f"engine error in witness {k}: " + w["error"][-300:], w))
-        elif w:
+        elif k in KNOWN and w:
             known.add(KNOWN[k])
+        elif k in FIXED and w:
+            violations.append((f"regression: {FIXED[k]}", {"kind": "fixed-witness", "class": "C20-" + k,
+                                                                                  "what": FIXED[k]}))
 
-    evaluations = len(dec) + len(hv) + mx_runs + len(ok) + len(KNOWN)
+    evaluations = len(dec) + len(hv) + mx_runs + len(ok) + len(KNOWN) + len(FIXED)
     return {
         "obligations": obligations,
         "violations": violations,
